@@ -1,13 +1,13 @@
 SPECIFICATION Spec
 CONSTANTS
   Threads = {t1}
-  MaxPush = 5
-  MaxPop = 5
-  MaxUnblock = 3
+  MaxPush = 4
+  MaxPop = 4
+  MaxUnblock = 1
   MaxSize = 0
-  Void = TRUE
+  Void = FALSE
   AllowDestroy = TRUE
-  AllowThrow = FALSE
+  AllowThrow = TRUE
 INVARIANTS TypeOK NeverBothNonEmpty ExactlyOnceDelivery DeliveredInOrder ItemsSorted WaitersFIFO NoLostWaiter DestroyCancels
 PROPERTY AllResolved
 CHECK_DEADLOCK FALSE
